@@ -333,15 +333,15 @@ def create_dummy_in_mem_geff(
         prop_name = "var_length"
         ndim = 3
         _dtype = np.uint64
-        values_list = []
+        # fill an object array element by element: np.array(list_of_arrays, dtype=object)
+        # builds a 4d array instead when all elements have the same shape (num_nodes == 1)
+        values = np.empty(num_nodes, dtype=np.object_)
         for node in range(num_nodes):
             shape = [
                 node,
             ] * ndim
-            arr = np.ones(shape=shape, dtype=_dtype) * node
-            values_list.append(arr)
+            values[node] = np.ones(shape=shape, dtype=_dtype) * node
 
-        values = np.array(values_list, dtype=np.object_)
         missing = np.zeros(shape=(num_nodes,), dtype=np.bool_)
         if num_nodes > 0:
             missing[0] = 1
